@@ -44,7 +44,9 @@ UNIVERSES = {
 }
 PATHS = [None, None, None, "a/{a}", "{{auto}}", "x/{{auto:_}}", "{job.id}", "callable-id", False,
          # legal but not normalised: doubled separator, leading './', {{auto}} (possibly empty) in mid-spec
-         "id//{job.id}", "./{{auto}}", "v/{{auto}}/id/{job.id}"]
+         "id//{job.id}", "./{{auto}}", "v/{{auto}}/id/{job.id}",
+         # '..' swallows the distinguishing component: every job lands on 'same/job' (refused unless there is one job)
+         "{job.id}/../same"]
 
 
 def rand_op(rng, nuni):
